@@ -1,5 +1,5 @@
 """C08 - garbage collection is complete and confined."""
-from harness import core, repo_hist
+from harness import cli_hist, core, repo_hist
 from harness.core import Report
 
 RULE = ('cases = multi-user histories incl. interrupted snapshots (orphaned chunks), deletes of own snapshots, refused deletes, cleans, over '
@@ -69,12 +69,17 @@ def s3_gc_probe(ctx, rep):
                                'replay': {'probe': 's3_gc'}})
 
 
+CLI_MINE = ('exception', 'hang', 'snapshot_unreadable', 'snapshot_objects', 'snapshot_name', 'gc_incomplete', 'gc_overreach', 'config_touched', 'unknown_object', 'refused_delete_mutated')
+
+
 def _run(ctx, n, nops, rep, concurrent=None):
     seeds = [ctx.rng.randint(0, 2 ** 31) for _ in range(n)]
     repo_hist.run_batch(seeds, ctx.scratch, rep, nops=nops, weights=WEIGHTS, checks=CHECKS,
                         concurrent=concurrent or ctx.rng.choice([1, 2, 4]), delay=0.001)
     s3_gc_probe(ctx, rep)
     rep.violations[:] = [v for v in rep.violations if v['signature']['kind'] in MINE]
+    # the same property through the tool as a user runs it: fresh `python -m replicat` processes, a repository on disk, real faults
+    cli_hist.run_scenarios(ctx, rep, {'plain': ctx.scale(4, 40), 'oserror': ctx.scale(4, 40)}, CLI_MINE)
 
 
 def run(ctx) -> Report:
@@ -91,6 +96,9 @@ def search(ctx, broken) -> Report:
 
 
 def replay(ctx, obj):
+    rc = cli_hist.replay_cli(ctx, obj, CLI_MINE)
+    if rc is not None:
+        return rc
     rep = Report(rule=RULE)
     seed = (obj.get('replay') or {}).get('seed')
     if seed is None:
